@@ -9,13 +9,16 @@ package c01
 
 import (
 	"bytes"
+	"crypto/ecdsa"
 	"crypto/sha256"
 	"fmt"
+	"math/big"
 	"os"
 	"testing"
 
 	"pgregory.net/rapid"
 
+	simwallet "perun.network/go-perun/backend/sim/wallet"
 	"perun.network/go-perun/channel"
 	"perun.network/go-perun/wallet"
 
@@ -40,6 +43,26 @@ type verifier struct {
 }
 
 var verifyMemo = map[[32]byte]string{}
+
+// strictSimVerify is a reference verifier for the sim wallet backend (id 0):
+// a signature is exactly 64 bytes, r||s big-endian, and verifies with ECDSA for
+// the address's public key over the SHA-256 digest of the message.  Addresses
+// of other backends are not judged.
+func strictSimVerify(msg []byte, sig wallet.Sig, a wallet.Address) string {
+	addr, ok := a.(*simwallet.Address)
+	if !ok {
+		return ""
+	}
+	if len(sig) != 64 {
+		return fmt.Sprintf("%d bytes instead of 64", len(sig))
+	}
+	r, sv := new(big.Int).SetBytes(sig[:32]), new(big.Int).SetBytes(sig[32:])
+	d := sha256.Sum256(msg)
+	if !ecdsa.Verify((*ecdsa.PublicKey)(addr), d[:], r, sv) {
+		return "ECDSA verification fails"
+	}
+	return ""
+}
 
 // check returns "" if sig verifies for every address of participant i over
 // state s, else a reason.
@@ -81,6 +104,10 @@ func (v *verifier) check(i int, s *channel.State, enc []byte, sig wallet.Sig) st
 			// the sim channel backend signs the state's encoding with the wallet key:
 			// checked once more below the channel backend, which could be wrong itself
 			r = fmt.Sprintf("channel.Verify accepts the signature, but it is not a wallet signature of the participant over the state's encoding (ok=%v err=%v)", wok, werr)
+		} else if why := strictSimVerify(enc, sig, a); why != "" {
+			// and once more without the library: the sim backend's signature scheme
+			// (64 bytes r||s, ECDSA over the SHA-256 digest) written down here
+			r = "the library accepts the signature, a verifier written from the sim backend's signature format does not: " + why
 		}
 	}
 	verifyMemo[k] = r
